@@ -68,6 +68,9 @@ pub struct TState {
     addr_ids: BTreeMap<u64, u64>,
     next_instance: u64,
     pub record_events: bool,
+    /// seeded short reads on jubako's reader-side streams (per mille), and their PRNG
+    pub short_read_pm: u64,
+    pub short_rng: Option<simcore::prng::Rng>,
 }
 
 pub struct THooks {
@@ -111,6 +114,21 @@ impl verif_rt::Hooks for THooks {
             .copied()
             .unwrap_or(default)
     }
+    fn short_read(&self, n: usize) -> usize {
+        let mut st = self.st.lock().unwrap();
+        let pm = st.short_read_pm;
+        if pm == 0 {
+            return n;
+        }
+        let rng = st.short_rng.as_mut().unwrap();
+        if rng.below(1000) < pm {
+            let k = rng.range(1, n as u64 - 1) as usize;
+            *st.counts.entry("fault:stream-short-read").or_insert(0) += 1;
+            k
+        } else {
+            n
+        }
+    }
 }
 
 static CURRENT: Mutex<Option<Arc<THooks>>> = Mutex::new(None);
@@ -140,6 +158,9 @@ impl THooks {
         st.addr_ids.clear();
         st.next_instance = 0;
         st.record_events = record_events;
+        // the pseudo-knob "stream_short_read_pm" switches reader-side short reads on
+        st.short_read_pm = st.knobs.get("stream_short_read_pm").copied().unwrap_or(0);
+        st.short_rng = Some(simcore::prng::Rng::derive(st.knobs.get("stream_short_read_seed").copied().unwrap_or(0), "short-reads", 0));
     }
     pub fn take(&self) -> (Vec<Event>, BTreeMap<&'static str, u64>) {
         let mut st = self.st.lock().unwrap();
